@@ -587,6 +587,9 @@ func evalIterateStmt(vm *r.VM, node *syntax.IterateStmt) error {
 	// execIterationBlock, including set "currentKey" and "currentValue" to scope,
 	// and preDefined indication variables
 	execIterationBlockFn := func(key r.Element, v r.Element) error {
+		// loop variables hold a copy of the element ("copycat by default"),
+		// so that changes made through them never reach the iterated collection
+		v = value.DuplicateValue(v)
 		// set pre-defined value
 		if nameLen == 1 {
 			if err := vm.SetElement(valueSlot, v); err != nil {
